@@ -94,13 +94,16 @@ def render_tokens(toks):
     return bytes(out)
 
 
-GEN_RE = re.compile(r'^<<"GEN", (".*")>>$', re.M)
+GEN_RE = re.compile(r'^("GEN .*")$', re.M)
 
 
 def gen_lines(out):
+    """documents printed by the Emit invariants: one TLA+ string per line (a string is never wrapped by PrintT)"""
     docs = []
     for m in GEN_RE.finditer(out):
-        docs.append(json.loads(json.loads(m.group(1))))
+        docs.append(json.loads(json.loads(m.group(1))[4:]))
+    if out.count('"GEN ') != len(docs):
+        raise vlib.Infra('GEN lines lost: %d markers, %d parsed' % (out.count('"GEN '), len(docs)))
     return docs
 
 
@@ -235,7 +238,7 @@ def template_cases(ctx):
     return out
 
 
-VAL_RE = re.compile(r'^<<"VAL", "(\[[0-9, ]*\])">>$', re.M)
+VAL_RE = re.compile(r'^"VAL (\[[0-9, ]*\])"$', re.M)
 NEEDQ = set(b' \t\n\f\r"\'=<>`')
 
 
@@ -480,6 +483,26 @@ def run(ctx):
     cases += template_cases(ctx)
     cases += pinned_cases()
     lines, side, accepted, rejects = validate(ctx, exe, cases, 'main')
+
+    # second pass: the real outputs of accepted generated documents are conforming documents written with
+    # omitted tags and minimal white space (the generator itself writes every tag); they are new inputs
+    bad1 = set(i for i, _ in rejects)
+    outs = sorted(set((side[i], cases[i]['frag']) for i in range(n_tree)
+                      if i not in bad1 and cases[i]['opts'] == 0 and side[i].encode() != bytes(cases[i]['src'])))
+    outs = vlib.sample(outs, 6000 if ctx.quick() else 60000, ctx.rnd)
+    pass2 = []
+    for j, (m, frag) in enumerate(outs):
+        pass2.append(mk(m, 0, frag, 0, origin='gen:pass2'))
+        pass2.append(mk(m, PAIRWISE8[1 + (j + ctx.seed) % 7], frag, 0, origin='gen:pass2'))
+    if pass2:
+        l2, s2, a2, r2 = validate(ctx, exe, pass2, 'pass2')
+        base = len(cases)
+        cases += pass2
+        lines += l2
+        side += s2
+        accepted += a2
+        rejects += [(base + i, w) for i, w in r2]
+    ctx.coverage['second_pass_documents'] = len(pass2)
 
     # DRIFT: design model prediction vs real output (information about the model, never a verdict)
     drift, compared = [], 0
